@@ -132,10 +132,116 @@ def execute_twins(case: dict):
     return viols, stats, [digest([tw, case["events"], case["start_cwd"], case["entry_form"]])]
 
 
+def generate_links(seed: int, tier: str) -> dict:
+    """A directory reached through a symbolic link, `..` hops out of it, and `..` behind a directory that does not
+    exist.  The reading checked is the one the statement words: "the file located relative to the directory of the
+    file that contains the import" as the operating system locates it, and a path that does not exist is an OS error
+    (a textual `a/../b` -> `b` collapse would read a decoy here, or succeed where the path does not exist)."""
+    st = Streams(seed)
+    rng = st("links")
+    tag = (seed % 9000 + 1000) * 100
+    deep = rng.choice(["real/deep/dir", "real/dir", "r/a/b/c"])
+    events = []
+    for call in range(8):
+        if rng.random() < 0.3:
+            events.append({"before_call": call, "chdir": rng.choice(["", "/", "real", deep])})
+    return {"prop": "C17", "engine": "fs", "seed": seed, "tier": tier,
+            "links": {"deep": deep, "link": rng.choice(["link", "l/ink"]), "target_abs": rng.random() < 0.4, "vals": {"up": tag + 1, "here": tag + 2, "decoy": tag + 3},
+                      "entry": rng.choice(["entry", "via_link"]), "missing_dir": rng.choice(["nodir", "real/nodir"])},
+            "events": events, "start_cwd": rng.choice(["", "/", "real"]), "entry_form": rng.choice(["rel", "abs", "rel_dot"])}
+
+
+def execute_links(case: dict):
+    from nix_manipulator import parse_file
+
+    lk = case["links"]
+    viols: list[Violation] = []
+    stats: dict = {"layouts": 1, "link_layouts": 1}
+    root = clisim.scratch_root()
+    old_cwd = os.getcwd()
+    facts = {"links": True, "entry": lk["entry"], "entry_form": case["entry_form"], "events": ["chdir"] if case["events"] else []}
+    deep = lk["deep"]
+    up_dir = posixpath.dirname(deep)
+    try:
+        os.makedirs(os.path.join(root, deep), exist_ok=True)
+        os.makedirs(os.path.join(root, "real"), exist_ok=True)
+        link_abs = os.path.join(root, lk["link"])
+        os.makedirs(os.path.dirname(link_abs), exist_ok=True)
+        os.symlink(os.path.join(root, deep) if lk["target_abs"] else os.path.relpath(os.path.join(root, deep), os.path.dirname(link_abs)), link_abs)
+        with open(os.path.join(root, deep, "a.nix"), "w") as fh:
+            fh.write("{\n  up = import ../x.nix;\n  here = import ./y.nix;\n}\n")
+        with open(os.path.join(root, deep, "y.nix"), "w") as fh:
+            fh.write("{ val = %d; }\n" % lk["vals"]["here"])
+        with open(os.path.join(root, up_dir, "x.nix"), "w") as fh:
+            fh.write("{ val = %d; }\n" % lk["vals"]["up"])
+        # decoys where a textual collapse of `..` would look
+        for d in {"", posixpath.dirname(lk["link"]), posixpath.dirname(lk["missing_dir"])}:
+            os.makedirs(os.path.join(root, d), exist_ok=True)
+            path = os.path.join(root, d, "x.nix")
+            if not os.path.exists(path):
+                with open(path, "w") as fh:
+                    fh.write("{ val = %d; }\n" % lk["vals"]["decoy"])
+        with open(os.path.join(root, "entry.nix"), "w") as fh:
+            fh.write("{\n  k = import ./%s/a.nix;\n  n = import ./%s/../x.nix;\n}\n" % (lk["link"], lk["missing_dir"]))
+
+        def run_events(idx):
+            for e in case["events"]:
+                if e["before_call"] == idx:
+                    os.chdir(e["chdir"] if e["chdir"] == "/" else os.path.join(root, e["chdir"]))
+                    stats["event:chdir"] = stats.get("event:chdir", 0) + 1
+
+        os.chdir("/" if case["start_cwd"] == "/" else os.path.join(root, case["start_cwd"]))
+        run_events(0)
+        first = "entry.nix" if lk["entry"] == "entry" else lk["link"] + "/a.nix"
+        src = parse_file(entry_spelling(dict(case, chain=[first]), root, os.getcwd()))
+        call = 1
+        lookups = [(["k", "up", "val"], lk["vals"]["up"]), (["k", "here", "val"], lk["vals"]["here"]), (["n", "val"], OSError)]
+        if lk["entry"] == "via_link":
+            lookups = [(["up", "val"], lk["vals"]["up"]), (["here", "val"], lk["vals"]["here"])]
+        for path, want in lookups:
+            try:
+                cur = src
+                for seg in path:
+                    run_events(call)
+                    call += 1
+                    cur = cur[seg]
+                value = cur.rebuild() if hasattr(cur, "rebuild") else repr(cur)
+                outcome = "value"
+            except Exception as e:  # noqa: BLE001
+                outcome = type(e)
+                value = str(e).replace(root, "@ROOT@")
+            stats["hops"] = stats.get("hops", 0) + len(path) - 1
+            what = ".".join(path)
+            if want is OSError:
+                stats["fault:missing_dir"] = stats.get("fault:missing_dir", 0) + 1
+                if outcome == "value":
+                    viols.append(Violation("C17.fault_resolved_elsewhere", "%s/../x.nix does not exist (no such directory) but the lookup answered %s" % (lk["missing_dir"], value), None, facts))
+                    break
+                if not issubclass(outcome, OSError):
+                    viols.append(Violation("C17.wrong_error", "%s/../x.nix: raised %s (%s), expected an OS error" % (lk["missing_dir"], outcome.__name__, value), None, facts))
+                    break
+            elif outcome != "value":
+                viols.append(Violation("C17.lookup_failed", "lookup %s through the linked directory failed with %s: %s" % (what, outcome.__name__, value), None, facts))
+                break
+            elif value != str(want):
+                viols.append(Violation("C17.wrong_file", "lookup %s through the linked directory answered %s, expected %d (decoy is %d)" % (what, value, want, lk["vals"]["decoy"]), None, facts))
+                break
+    finally:
+        try:
+            os.chdir(old_cwd)
+        except OSError:
+            os.chdir("/")
+        shutil.rmtree(root, ignore_errors=True)
+    return viols, stats, [digest([lk, case["events"], case["start_cwd"], case["entry_form"]])]
+
+
 def generate(seed: int, tier: str) -> dict:
     st = Streams(seed)
-    if st("kind").random() < 0.25:
+    kind_draw = st("kind").random()
+    if kind_draw < 0.25:
         return generate_twins(seed, tier)
+    if kind_draw < 0.35:
+        return generate_links(seed, tier)
     rng = st("layout")
     ndirs = rng.randint(1, 4)
     dirs = [""] + rng.sample(DIRS[1:], ndirs - 1) if ndirs > 1 else [""]
@@ -257,6 +363,8 @@ def execute(case: dict):
 
     if case.get("twins"):
         return execute_twins(case)
+    if case.get("links"):
+        return execute_links(case)
     viols: list[Violation] = []
     stats: dict = {"layouts": 1, "hops": len(case["chain"]) - 1}
     keys = [digest([case["files"], case["chain"], case["events"], case["start_cwd"], case["entry_form"], case["fault"]])]
@@ -376,7 +484,7 @@ class FsProperty:
 
     def shrink_candidates(self, case):
         ev = case["events"]
-        if case.get("twins"):
+        if case.get("twins") or case.get("links"):
             for i in range(len(ev)):
                 c = dict(case)
                 c["events"] = ev[:i] + ev[i + 1:]
